@@ -706,3 +706,36 @@ func edgeExcludedAt(pred, blk *ssa.BasicBlock, use ssa.Instruction) bool {
 	}
 	return false
 }
+
+// isFuncValue: v is the named package-level function used as a value.
+func isFuncValue(v ssa.Value, name string) bool {
+	if ct, ok := v.(*ssa.ChangeType); ok {
+		v = ct.X
+	}
+	f, ok := v.(*ssa.Function)
+	return ok && fnName(f) == name
+}
+
+// ifaceMethodCalled: the name of the interface method a call dispatches to, either x.M(...) or m := x.M; m(...).
+func ifaceMethodCalled(c *ssa.CallCommon) string {
+	if c.IsInvoke() {
+		return c.Method.Name()
+	}
+	if mc, ok := c.Value.(*ssa.MakeClosure); ok && len(mc.Bindings) == 1 {
+		if f, ok := mc.Fn.(*ssa.Function); ok && strings.HasSuffix(f.Name(), "$bound") && types.IsInterface(mc.Bindings[0].Type()) {
+			return strings.TrimSuffix(f.Name(), "$bound")
+		}
+	}
+	return ""
+}
+
+// ifaceReceiver: the interface value an interface-method call (direct or through a method value) is made on.
+func ifaceReceiver(c *ssa.CallCommon) ssa.Value {
+	if c.IsInvoke() {
+		return c.Value
+	}
+	if mc, ok := c.Value.(*ssa.MakeClosure); ok && len(mc.Bindings) == 1 {
+		return mc.Bindings[0]
+	}
+	return nil
+}
